@@ -21,7 +21,9 @@ RULE = ('cf: reference dates 1900-2100 in every spelling the parser lists '
         'variables; ioapi: start dates over leap '
         'days/year ends x steps 1 s .. 24 h, decoded through TFLAG, through '
         'SDATE/STIME/TSTEP only, and through the synthesised CF time '
-        'variable (built from files with and without a TFLAG variable); inverse laws date2num(getTimes) and time2idx(getTimes). '
+        'variable (built from files with and without a TFLAG variable); '
+        'tau: GEOS-Chem tau0/tau1 hours since 1985 in memory and through '
+        'both bpch readers; inverse laws date2num(getTimes) and time2idx(getTimes). '
         'thorough adds the exhaustive sweep: every day of 1899-2101 x 4 '
         'units (standard calendar). only decodings that RETURN are judged. '
         'evaluations = decode calls; distinct = digest of the spec.')
@@ -94,7 +96,17 @@ def gen(rng, idx, tier, seed):
         j = idx - N[tier]
         y, u = divmod(j, len(UNITS))
         return {'mode': 'sweep', 'year': YEARS[y], 'unit': UNITS[u]}
-    m = idx % 5
+    m = idx % 6
+    if m == 5:
+        # GEOS-Chem convention: tau0/tau1 hours since 1985-01-01 00 UTC
+        nt = int(rng.integers(1, 5))
+        return {'mode': 'tau', 'nt': nt,
+                'tau0': float(rng.choice([0, 8760, 175344, 227904,
+                                          int(rng.integers(0, 400000))])),
+                'dtau': float(rng.choice([1, 3, 24, 744])),
+                'via': str(rng.choice(['memory', 'bpch1', 'bpch2'])),
+                'seed': int(rng.integers(1 << 30)),
+                'bounds': bool(rng.random() < 0.5)}
     if m in (0, 1, 2):
         y = int(rng.integers(1900, 2101))
         mo = int(rng.integers(1, 13))
@@ -372,7 +384,82 @@ def run_sweep(spec, res):
                  % (units, vals[j], got[j], exp[j]), calendar='standard')
 
 
+def run_tau(spec, res):
+    import os
+    import PseudoNetCDF as pnc
+    from .. import harness, refbpch
+    nt = spec['nt']
+    tau0 = [spec['tau0'] + i * spec['dtau'] for i in range(nt)]
+    tau1 = [t + spec['dtau'] for t in tau0]
+    base = datetime.datetime(1985, 1, 1)
+    want = [tuple((base + datetime.timedelta(hours=h)).timetuple()[:6])
+            for h in tau0]
+    wantb = want + [tuple((base + datetime.timedelta(
+        hours=tau1[-1])).timetuple()[:6])]
+    res.hook('oracle.integer-calendar')
+    facets = ['tau', 'via:' + spec['via']]
+    dg = digest(spec)
+    problems = []
+    with harness.casedir() as d:
+        try:
+            if spec['via'] == 'memory':
+                f = pnc.PseudoNetCDFFile()
+                f.createDimension('t', nt)
+                for k, vals in (('tau0', tau0), ('tau1', tau1)):
+                    v = f.createVariable(k, 'd', ('t',))
+                    v.units = 'hours since 1985-01-01 00:00:00 UTC'
+                    v[:] = vals
+            else:
+                from PseudoNetCDF.geoschemfiles import bpch1, bpch2
+                rng = np.random.default_rng([spec['seed'], 71])
+                bs = refbpch.gen_spec(rng, small=True)
+                bs.update(nt=nt, tau0=spec['tau0'], dtau=spec['dtau'])
+                path = os.path.join(d, 'in.bpch')
+                with open(path, 'wb') as fh:
+                    fh.write(refbpch.encode(bs))
+                with open(os.path.join(d, 'tracerinfo.dat'), 'w') as fh:
+                    fh.write(refbpch.tracerinfo_text(bs))
+                with open(os.path.join(d, 'diaginfo.dat'), 'w') as fh:
+                    fh.write(refbpch.diaginfo_text(bs))
+                f = bpch1(path) if spec['via'] == 'bpch1' else bpch2(path)
+                # the readers expose a `time` coordinate of their own
+                # (bpch1: middle of the averaging interval, bpch2: its
+                # start); getTimes owes the instants THAT variable states,
+                # which must lie inside the encoded interval
+                tv = np.asarray(f.variables['time'][...], 'f8')
+                if tv.shape != (nt,) or (tv < np.array(tau0)).any() or (
+                        tv > np.array(tau1)).any():
+                    problems.append('time variable %s outside the encoded '
+                                    'intervals %s..%s' % (tv.tolist()[:3],
+                                                          tau0[:3], tau1[:3]))
+                want = [tuple((base + datetime.timedelta(
+                    hours=float(h))).timetuple()[:6]) for h in tv]
+            got = [as_utc_tuple(t)[:6] for t in f.getTimes()]
+            res.hook('getTimes.return')
+            if got != want:
+                problems.append('getTimes() = %s, tau0 %s hours since '
+                                '1985-01-01 are %s' % (got[:3], tau0[:3],
+                                                       want[:3]))
+            if spec['bounds']:
+                gb = [as_utc_tuple(t)[:6] for t in f.getTimes(bounds=True)]
+                res.hook('getTimes.return')
+                if gb != wantb:
+                    problems.append('getTimes(bounds=True) = %s, tau0/tau1 '
+                                    'say %s' % (gb[-2:], wantb[-2:]))
+        except Exception as e:
+            res.hook('getTimes.return')
+            res.note('getTimes-raised:%s' % type(e).__name__)
+            res.ev(dg, False, facets + ['raised'])
+            return
+    res.ev(dg, True, facets)
+    if problems:
+        res.viol('wrong-instant:tau:' + spec['via'], '; '.join(problems[:3]),
+                 via=spec['via'])
+
+
 def run(spec, res):
+    if spec['mode'] == 'tau':
+        return run_tau(spec, res)
     if spec['mode'] == 'cf':
         run_cf(spec, res)
     elif spec['mode'] == 'sweep':
